@@ -92,12 +92,16 @@ fn ber_exp(x: f64, ccs: f64, random_bytes: [u8; 7]) -> bool {
 pub(crate) fn sampler_z(mu: f64, sigma: f64, sigma_min: f64, rng: &mut dyn RngCore) -> i16 {
     const SIGMA_MAX: f64 = 1.8205;
     const INV_2SIGMA_MAX_SQ: f64 = 1f64 / (2f64 * SIGMA_MAX * SIGMA_MAX);
+    #[cfg(falcon_rust_verif)]
+    crate::verif_hooks::sampler_entry(mu, sigma, sigma_min);
     let isigma = 1f64 / sigma;
     let dss = 0.5f64 * isigma * isigma;
     let s = f64::floor(mu);
     let r = mu - s;
     let ccs = sigma_min * isigma;
     loop {
+        #[cfg(falcon_rust_verif)]
+        crate::verif_hooks::probe("sampler_z.iteration");
         let z0 = base_sampler(rng.gen());
         let random_byte: u8 = rng.gen();
         let b = (random_byte & 1) as i16;
@@ -109,6 +113,19 @@ pub(crate) fn sampler_z(mu: f64, sigma: f64, sigma_min: f64, rng: &mut dyn RngCo
             return z + (s as i16);
         }
     }
+}
+
+#[cfg(falcon_rust_verif)]
+pub(crate) fn verif_base_sampler(bytes: [u8; 9]) -> i16 {
+    base_sampler(bytes)
+}
+#[cfg(falcon_rust_verif)]
+pub(crate) fn verif_approx_exp(x: f64, ccs: f64) -> u64 {
+    approx_exp(x, ccs)
+}
+#[cfg(falcon_rust_verif)]
+pub(crate) fn verif_ber_exp(x: f64, ccs: f64, random_bytes: [u8; 7]) -> bool {
+    ber_exp(x, ccs, random_bytes)
 }
 
 #[cfg(test)]
